@@ -809,7 +809,13 @@ func (x *Exec) evalSpecCall2(sc *specCtx, e *ast.CallExpr) Value {
 				n := "maplen_" + sanitize(string(ks))
 				x.sym.declareFun(n, []Sort{arrSort(ks, SBool)}, SInt)
 				d := sel(sc.heapRead(heapKeyMapDom(mt), arrSort(SInt, arrSort(ks, SBool))), v.T)
-				return Scalar{mk(SInt, n, d), types.Typ[types.Int]}
+				r := mk(SInt, n, d)
+				if sc.st != nil && !strings.Contains(r.S, "!q") {
+					// defining facts of the cardinality: non-negative, zero iff the domain is empty
+					sc.st.assume(mk(SBool, ">=", r, intLit(0)))
+					sc.st.assume(eq(eq(r, intLit(0)), eq(d, zeroOfSort(arrSort(ks, SBool)))))
+				}
+				return Scalar{r, types.Typ[types.Int]}
 			}
 		}
 		panic(engineErr("len of unsupported value in spec"))
